@@ -119,6 +119,10 @@ type T struct {
 	loopDepth  int
 }
 
+// globalIgnore: call statements ignored in every target.  verifPoint(kind, args...) is the observation hook of
+// the verification harness: a no-op unless built with -tags verif, it never affects control flow or state.
+var globalIgnore = []string{"verifPoint"}
+
 var reservedNames = map[string]bool{}
 
 func init() {
@@ -278,6 +282,9 @@ func (t *T) translate() (defs []*Def, err error) {
 		t.emits[m.Go] = m
 	}
 	for _, s := range tg.Ignore {
+		t.ignore[s] = true
+	}
+	for _, s := range globalIgnore {
 		t.ignore[s] = true
 	}
 	t.countAssignments()
